@@ -104,11 +104,15 @@ def setup_hash(it, cfg):
     it.builtins["hash"] = EnvFunc("hash", h)
     if cfg["memo"]:
         a.attrs["_hash"] = h(it, a.attrs["_ident"])
+    # the lazily cached public create_time() is epoch based (it moves with the boot-time reading) and may not have been
+    # computed yet: it is NOT the identity and must not leak into the hash
+    a.attrs["_create_time"] = it.fresh("cached_epoch_create_time", "Real") if cfg["ct"] == "cached" else None
     return {"args": {"self": a}, "spec": {"H": EnvFunc("H", h)}}
 
 
 REGISTRY.add(Contract(
-    "C02", INIT, "Process.__hash__", setup=setup_hash, env=ENV, configs=[{"memo": False}, {"memo": True}],
+    "C02", INIT, "Process.__hash__", setup=setup_hash, env=ENV,
+    configs=[{"memo": m, "ct": c} for m in (False, True) for c in ("cached", "none")],
     ensures=["result == H(self._ident)", "self._hash == result"], raises={}, canaries=["result == 0"],
     note="hash(ident): objects that are equal hash alike"))
 
